@@ -91,7 +91,7 @@ var (
 	genesisModuleOrder = []string{
 		authtypes.ModuleName, banktypes.ModuleName,
 		distrtypes.ModuleName, stakingtypes.ModuleName, slashingtypes.ModuleName, govtypes.ModuleName,
-		minttypes.ModuleName, crisistypes.ModuleName, genutiltypes.ModuleName, evidencetypes.ModuleName, authz.ModuleName,
+		minttypes.ModuleName, genutiltypes.ModuleName, evidencetypes.ModuleName, authz.ModuleName,
 		feegrant.ModuleName, group.ModuleName, paramstypes.ModuleName, upgradetypes.ModuleName,
 		vestingtypes.ModuleName, consensustypes.ModuleName,
 		coinswaptypes.ModuleName,
@@ -103,6 +103,11 @@ var (
 		randomtypes.ModuleName,
 		recordtypes.ModuleName,
 		tokentypes.ModuleName,
+		// crisis last (as production applications order it): it asserts every registered
+		// invariant when the genesis is imported, which is only meaningful after all modules
+		// have loaded their state. The repository's test wiring has it before the irismod
+		// modules, where farm's balance invariant can only hold for an empty farm.
+		crisistypes.ModuleName,
 	}
 
 	// module account permissions
